@@ -219,6 +219,13 @@ func triageRace(cfg vlib.Cfg, rep *vlib.Report, rr *vlib.RaceReport, seen map[st
 	}
 	f0, l0, s0 := accessSite(rr, 0)
 	f1, l1, s1 := accessSite(rr, 1)
+	if strings.Contains(f0, "modules.Verif") || strings.Contains(f1, "modules.Verif") {
+		// one side is a verif accessor that the harness called while a handler was
+		// active (VerifScheduleOrder reads the times without the task locks): an
+		// artefact of the observation, not a property of the code under test
+		rep.Count("race_reports_verif_accessor", 1)
+		return
+	}
 	in := func(fn, src string) string {
 		if fn == "" || !scopeFunc.MatchString(fn) {
 			return ""
@@ -287,7 +294,7 @@ func childMain(dir string) {
 		os.Exit(3)
 	}
 	b := vlib.NewBatch()
-	w, err := startWorld()
+	w, err := startWorld(cs.Mgmt)
 	if err != nil {
 		fmt.Println("cannot start module system:", err)
 		os.Exit(3)
@@ -300,7 +307,7 @@ func childMain(dir string) {
 	go func() {
 		<-sigq
 		if res := w.partial(); res != nil {
-			judge(res, b, cs.Kind)
+			judge(res, b, worldLabel(cs))
 		}
 		b.Finish(dir)
 		_ = pprof.Lookup("goroutine").WriteTo(os.Stderr, 2)
@@ -314,10 +321,17 @@ func childMain(dir string) {
 		for i := range cs.Hists {
 			h := cs.Hists[i]
 			res := w.run(&h)
-			judge(res, b, cs.Kind)
+			judge(res, b, worldLabel(cs))
 		}
 	}
 	b.Finish(dir)
+}
+
+func worldLabel(cs childSpec) string {
+	if cs.Mgmt {
+		return cs.Kind + "+module-mgmt"
+	}
+	return cs.Kind
 }
 
 func judge(res *histResult, b *vlib.Batch, build string) {
@@ -325,6 +339,9 @@ func judge(res *histResult, b *vlib.Batch, build string) {
 	v := buildView(h, res.Events)
 	b.Eval(1)
 	b.Count("histories:"+h.Class, 1)
+	if strings.HasSuffix(build, "+module-mgmt") {
+		b.Count("histories_with_module_management", 1)
+	}
 	b.Max("max_history_wall_ms", res.WallMs)
 	if d := os.Getenv("VERIF_C07_DEBUG"); d != "" && res.WallMs > 5000 {
 		bb, _ := json.Marshal(map[string]any{"detail": map[string]any{"hist": h, "events": res.Events, "build": build, "findings": []finding{}}})
@@ -412,7 +429,18 @@ func judge(res *histResult, b *vlib.Batch, build string) {
 		}
 	default:
 		b.Count("histories_quiescent", 1)
-		fs = append(fs, v.checkT4()...)
+		if !res.ModsOnline {
+			inconcl = append(inconcl, "a task module was not online at the end of the history: nothing-lost not judged")
+		} else {
+			for _, f := range v.checkT4() {
+				if strings.HasSuffix(build, "+module-mgmt") {
+					// module management enabled; the module reports Online the whole time
+					f.Sig += ":managed-modules"
+					f.What += " (module management enabled; the task's module reported status Online)"
+				}
+				fs = append(fs, f)
+			}
+		}
 		switch h.Class {
 		case clsGate:
 			f, inc := v.checkGate(false)
